@@ -393,6 +393,25 @@ impl Property for P {
             v.push(Case { hubs: vec![Hub { fwd: organizes(3), inv: vec![] }], ops: vec![
                 Browse(1, (0..23).map(|_| all(0)).collect()), Next(false, (1..=23).collect()), Next(true, (20..=50).collect()), Browse(1, (0..51).map(|_| all(0)).collect())] });
         }
+        // exactly as many continuation points as the session keeps (20), each with several pages
+        // left, continued newest first / from the middle: using a point must not cost another one
+        for order in 0..3 {
+            let mut ops = Vec::new();
+            for _ in 0..20 { ops.push(Browse(3, vec![all(0)])); }
+            let idx: Vec<i64> = match order { 0 => (1..=20).rev().collect(), 1 => vec![10, 1, 20, 2, 11], _ => vec![20, 1] };
+            let mut next_id = 20i64;
+            let mut live: Vec<i64> = (1..=20).collect();
+            for i in idx {
+                // continue point i twice; the follow-up point gets the next canonical number
+                let pos = live.iter().position(|x| *x == i).unwrap();
+                ops.push(Next(false, vec![i]));
+                next_id += 1; live[pos] = next_id;
+                ops.push(Next(false, vec![next_id]));
+                next_id += 1; live[pos] = next_id;
+            }
+            for x in live { ops.push(Next(false, vec![x])); }
+            v.push(Case { hubs: vec![Hub { fwd: organizes(10), inv: vec![] }], ops });
+        }
         // filters: direction x type filter x subtypes x node class mask on a mixed hub
         {
             let hub = Hub {
